@@ -1,0 +1,47 @@
+//go:build verif
+
+// Contracts for the gvc verifier (/verif). Comment-only file: it adds no code to the package.
+package tmlibp2p
+
+// Ghost records of what the collaborators returned last (used to relate the validator's result to them).
+//@ ghost lastfb(ref) mathint
+//@ ghost ncalls(ref) mathint
+//@ ghost lastdecodefailed(ref) bool
+
+//@ iface tmconsensus.ConsensusHandler.HandleProposedHeader(h, ctx, ph)
+//@   ensures lastfb(h) == result && ncalls(h) == old(ncalls(h)) + 1
+//@   modifies lastfb(h), ncalls(h)
+//@ iface tmconsensus.ConsensusHandler.HandlePrevoteProofs(h, ctx, p)
+//@   ensures lastfb(h) == result && ncalls(h) == old(ncalls(h)) + 1
+//@   modifies lastfb(h), ncalls(h)
+//@ iface tmconsensus.ConsensusHandler.HandlePrecommitProofs(h, ctx, p)
+//@   ensures lastfb(h) == result && ncalls(h) == old(ncalls(h)) + 1
+//@   modifies lastfb(h), ncalls(h)
+
+//@ iface tmcodec.MarshalCodec.UnmarshalConsensusMessage(codec, b, cm)
+//@   ensures lastdecodefailed(codec) == (result != nil)
+//@   modifies lastdecodefailed(codec), *cm
+
+// ---- C20: relay (Accept) only what the local handler accepted ----
+
+//@ func Connection.exchangeFeedbackToLibp2p
+//@   property C20
+//@   ensures accept-iff-accepted: (result == pubsub.ValidationAccept) == (f == gexchange.FeedbackAccepted)
+//@   ensures reject-iff-rejected: (result == pubsub.ValidationReject) == (f == gexchange.FeedbackRejected)
+//@   ensures anything-else-is-ignored: f != gexchange.FeedbackAccepted && f != gexchange.FeedbackRejected ==> result == pubsub.ValidationIgnore
+//@   modifies nothing
+
+//@ func ignoreMessage
+//@   property C20
+//@   ensures always-ignore: result == pubsub.ValidationIgnore
+//@   modifies nothing
+
+//@ func Connection.libp2pConsensusMessageValidator$1
+//@   property C20
+//@   requires *c != nil
+//@   ensures relay-only-if-handler-accepted: id != *selfID && result == pubsub.ValidationAccept ==>
+//@       *h != nil && ncalls(*h) == old(ncalls(*h)) + 1 && lastfb(*h) == gexchange.FeedbackAccepted && !lastdecodefailed((*c).codec)
+//@   ensures undecodable-is-ignored: id != *selfID && lastdecodefailed((*c).codec) ==> result == pubsub.ValidationIgnore
+//@   ensures no-handler-never-accepts: id != *selfID && *h == nil ==> result != pubsub.ValidationAccept
+//@   ensures handler-called-at-most-once: ncalls(*h) <= old(ncalls(*h)) + 1
+//@   modifies lastfb(*h), ncalls(*h), lastdecodefailed((*c).codec)
